@@ -446,6 +446,19 @@ def hand_seeds():
         add(lambda: rec.TlsRecord(b'fragment'))
     except ImportError:
         pass
+    # certificate options with more than one member and of mixed kinds (the corpus has single-member lists only), alone
+    # and inside their vectors
+    try:
+        from cryptoparser.ssh import key as sk
+        add(lambda: sk.SshCertExtensionSourceAddress(['10.0.0.0/8', '::1/128']))
+        add(lambda: sk.SshCertExtensionSourceAddress(['2001:db8::/32', '192.168.1.1/32', '10.0.0.0/8']))
+        add(lambda: sk.SshCertExtensionForceCommand('ls -l /tmp'))
+        add(lambda: sk.SshCertCriticalOptionVector([sk.SshCertExtensionForceCommand('ls'),
+                                                    sk.SshCertExtensionSourceAddress(['10.0.0.0/8', '::1/128'])]))
+        add(lambda: sk.SshCertExtensionVector([sk.SshCertExtensionPermitPTY(), sk.SshCertExtensionPermitUserRC(),
+                                               sk.SshCertExtensionUnparsed('ext@verif.example', b'')]))
+    except ImportError:
+        pass
     # one Content-Security-Policy value per directive name (the corpus uses a handful of them)
     try:
         from cryptoparser.httpx import header as hh
